@@ -19,6 +19,9 @@ class Finding:
     where: str           # file:line (informational; NOT part of the key)
     msg: str
     path: list[str] = field(default_factory=list)   # call/inlining path
+    # qualified names of the functions the verdict was derived from (beyond
+    # the one `where` lies in); consulted by the opaque-context downgrade
+    context: list[str] = field(default_factory=list)
 
     def ident(self) -> str:
         return f"{self.rule}|{self.key}"
@@ -55,10 +58,11 @@ class Result:
         self.obligations.append(Obligation(rule, instance, where, True, note))
 
     def bad(self, rule: str, key: str, where: str, msg: str,
-            path: list[str] | None = None, instance: str | None = None):
+            path: list[str] | None = None, instance: str | None = None,
+            context: list[str] | None = None):
         self.obligations.append(
             Obligation(rule, instance or key, where, False, msg))
-        f = Finding(rule, key, where, msg, path or [])
+        f = Finding(rule, key, where, msg, path or [], context or [])
         if f.ident() not in self._seen:
             self._seen.add(f.ident())
             self.findings.append(f)
